@@ -149,6 +149,9 @@ class C18(Machine):
             lo = len(SOLVER) + len(NOISE) + len(GRIDDING)
             if lo <= j < lo + len(LAYERED) or j == nkeys - 5:
                 layered = True
+        # `remove_empty` alone only shows with sources / receivers that have
+        # no observation at all
+        only_remove_empty = single and index % nkeys == nkeys - 1
         model = gen.gen_model(rng, cases=['isotropic', 'VTI'] if layered
                               else gen.CASES)
         survey = gen.gen_survey(
@@ -160,6 +163,15 @@ class C18(Machine):
         # receivers / sources without any observation (for remove_empty)
         survey['empty_rec'] = rng.random() < 0.4
         survey['empty_src'] = rng.random() < 0.2
+        if only_remove_empty:
+            while len(survey['receivers']) < 2:
+                survey['receivers'].append(dict(survey['receivers'][0],
+                                                coords=[c + 7.5 for c in
+                                                        survey['receivers']
+                                                        [0]['coords'][:3]] +
+                                                survey['receivers'][0]
+                                                ['coords'][3:]))
+            survey['empty_rec'] = True
         cfg = {'grid': grid, 'model': model, 'survey': survey,
                'sfmt': rng.choice(FMTS), 'mfmt': rng.choice(FMTS),
                'policy': rng.choice(simpool.POLICIES)}
@@ -313,7 +325,8 @@ class C18(Machine):
                 idx = [i for i in range(n) if rng.random() < 0.6] or [0]
                 d[k] = idx
         if (only is None and rng.random() < 0.4) or only == 'remove_empty':
-            d['remove_empty'] = rng.random() < 0.5
+            d['remove_empty'] = rng.random() < 0.5 or only == 'remove_empty'
+
         return d
 
     def simplify(self, case):
